@@ -1,0 +1,30 @@
+//! Schedule points for external verification harnesses.
+//!
+//! Compiled only with `--cfg fe2o3_amqp_verif`. A harness may install a hook that is awaited
+//! at named points inside the library, which lets it decide deterministically how two tasks
+//! interleave around that point. Without a hook every schedule point is a no-op.
+
+use std::{future::Future, pin::Pin, sync::Mutex};
+
+/// A hook invoked with the name of the schedule point; the returned future is awaited in place
+pub type SchedHook =
+    Box<dyn Fn(&'static str) -> Pin<Box<dyn Future<Output = ()> + Send>> + Send + Sync>;
+
+static HOOK: Mutex<Option<SchedHook>> = Mutex::new(None);
+
+/// Install (or remove) the process wide schedule hook
+pub fn set_sched_hook(hook: Option<SchedHook>) {
+    *HOOK.lock().unwrap_or_else(|e| e.into_inner()) = hook;
+}
+
+/// Await the hook (if any) for the named schedule point
+pub async fn sched_point(name: &'static str) {
+    let fut = HOOK
+        .lock()
+        .unwrap_or_else(|e| e.into_inner())
+        .as_ref()
+        .map(|hook| hook(name));
+    if let Some(fut) = fut {
+        fut.await
+    }
+}
